@@ -33,8 +33,9 @@ TRUSTED = [
 # generators
 # ------------------------------------------------------------------------------------------------
 
-TEXT_POOL = ["a", "0", "7", "-1", " 42 ", "t", "é", "ÿ", "€", "😀", "", "ab", "x\n", "1_0", "\ud800", "ß", "\x00", "\x7f", "\x80"]
-BYTE_POOL = [b"a", b"\x00", b"\xff", b"\x80", b"", b"12", b"\xc3\xa9", b"A", b" 5", b"\xe9"]
+TEXT_POOL = ["a", "0", "7", "-1", " 42 ", "t", "é", "ÿ", "€", "😀", "", "ab", "x\n", "1_0", "\ud800", "ß", "\x00", "\x7f", "\x80",
+             "\x1c", "\x1f5", "+3", "\t6\r", "0x1", "1__0", "_1", "1_"]
+BYTE_POOL = [b"a", b"\x00", b"\xff", b"\x80", b"", b"12", b"\xc3\xa9", b"A", b" 5", b"\xe9", b"\x1e", b"3", b"-", b"\x0b4"]
 
 
 def gen_leaves(rng) -> list[Any]:
@@ -340,6 +341,7 @@ def main(tier: str) -> int:
         [[0, 1, 0, 0], [0, 0, 0, 1], b"\xff"],
         [b"\xff", "é"], ["é", b"\xff"], [[], "a", [[]], b"b"], [1, 0, 1], ["12"], [b"12"], [" 7 "],
         [0, 0, 1, 1, 0, 0, 0, 1], ["\ud800", b"a"], ["\ud800", "a"],
+        [0, 0, 0, 1, 1, 1, 1, 0, " 42 ", b""], ["\x1c7"], ["\x1f7\x1f"], [b"\x1d8"], ["7\x0b"], [b"\x0c9 "],
     ]
     for nest in corpus:
         for hist in (["str", "bytes", "bits", "int"], ["bytes", "str"], ["int", "bits", "str", "bytes", "str"]):
